@@ -545,3 +545,167 @@ def count_dups(h):
         else:
             n += count_dups(lin[1])
     return n
+
+
+# ---------------------------------------------------------------- bounded-exhaustive enumeration (C03)
+def enum_shapes(n):
+    """all ordered rooted tree shapes with n leaves and no unary node, as nested tuples (() = leaf)"""
+    if n == 1:
+        return [()]
+    out = []
+
+    def parts(m, k):
+        # compositions of m into k positive parts
+        if k == 1:
+            yield (m,)
+            return
+        for a in range(1, m - k + 2):
+            for rest in parts(m - a, k - 1):
+                yield (a,) + rest
+    import itertools
+    for k in range(2, n + 1):
+        for comp in parts(n, k):
+            for kids in itertools.product(*[enum_shapes(a) for a in comp]):
+                out.append(tuple(kids))
+    return out
+
+
+def shape_tree(shape):
+    cnt = [0]
+
+    def go(s):
+        cnt[0] += 1
+        if s == ():
+            return T('S%d' % cnt[0])
+        return T('N%d' % cnt[0], [go(c) for c in s])
+    return go(shape).set_paths()
+
+
+def enum_histories(node, ids_start=1, max_dups=2, max_copies=2):
+    """every history rooted at `node` with at most max_dups duplications (copies per duplication: 2..max_copies).
+    Returned as functions of a gene-id allocator: here as (history, ndups) with symbolic gene ids that are
+    renumbered by relabel_history."""
+    import itertools
+
+    def member(nd, budget):
+        if not nd.kids:
+            return [(('G', None, nd.path), 0)]
+        return hog(nd, budget)
+
+    def lineage_options(c, budget):
+        opts = [(None, 0)]                                     # lost
+        for m, d in member(c, budget):
+            opts.append((('O', m), d))
+        if budget >= 1:
+            for ncop in range(2, max_copies + 1):
+                ms = member(c, budget - 1)
+                for combo in itertools.combinations_with_replacement(range(len(ms)), ncop):
+                    d = 1 + sum(ms[i][1] for i in combo)
+                    if d <= budget:
+                        opts.append((('P', [ms[i][0] for i in combo]), d))
+        return opts
+
+    def hog(nd, budget):
+        out = []
+        per_child = [lineage_options(c, budget) for c in nd.kids]
+        for choice in itertools.product(*per_child):
+            d = sum(x[1] for x in choice)
+            if d > budget:
+                continue
+            lins = [x[0] for x in choice if x[0] is not None]
+            if lins:
+                out.append((('H', nd.path, lins), d))
+        return out
+    return [h for h, _ in hog(node, max_dups)]
+
+
+def relabel_history(h, ids, genes):
+    """fresh gene ids for a symbolic history; genes collects (id, leaf path)"""
+    if h[0] == 'G':
+        g = ids.next()
+        genes.append((g, h[2]))
+        return ('G', g, h[2])
+    lins = []
+    for lin in h[2]:
+        if lin[0] == 'O':
+            lins.append(('O', relabel_history(lin[1], ids, genes)))
+        else:
+            lins.append(('P', [relabel_history(m, ids, genes) for m in lin[1]]))
+    return ('H', h[1], lins)
+
+
+def enum_spellings(h, byp, top=True):
+    """every spelling of h obtained by omitting / spelling out single-lineage levels where permitted and by
+    labelling or not; paralogGroups flat, genes bare.  Returns lists of items (a member may be spelt as a PG nest)."""
+    import itertools
+
+    def member(x, may_omit, may_omit_para):
+        """-> list of (items, level)"""
+        if x[0] == 'G':
+            return [([('g', x[1], None)], tuple(x[2]))]
+        out = [([it], tuple(x[1])) for it in explicit(x)]
+        lins = x[2]
+        if len(lins) == 1:
+            if lins[0][0] == 'O' and may_omit:
+                out.extend(member(lins[0][1], True, may_omit_para))
+            if lins[0][0] == 'P' and may_omit_para:
+                X = tuple(h_tax(lins[0][1][0]))
+                for nest in pg_nests(lins[0][1], X):
+                    out.append(([nest], None))
+        return out
+
+    def pg_nests(cs, X):
+        alts = [member(c, True, False) for c in cs]
+        out = []
+        for combo in itertools.product(*alts):
+            lvls = [lv for _, lv in combo]
+            if all(lv == X for lv in lvls) or (len(set(lvls)) >= 2 and mrca_paths(lvls) == X):
+                out.append(('pg', None, [i for its, _ in combo for i in its]))
+        return out
+
+    def explicit(x):
+        lins = x[2]
+        single = len(lins) == 1
+        per = []
+        for lin in lins:
+            if lin[0] == 'O':
+                if single:
+                    m = lin[1]
+                    per.append([[('g', m[1], None)]] if m[0] == 'G' else [[it] for it in explicit(m)])
+                else:
+                    per.append([its for its, _ in member(lin[1], True, True)])
+            else:
+                per.append([[n] for n in pg_nests(lin[1], tuple(h_tax(lin[1][0])))])
+        out = []
+        for combo in itertools.product(*per):
+            body = [i for its in combo for i in its]
+            out.append(('og', None, None, body))
+            out.append(('og', None, None, [('prop', 'TaxRange', byp[tuple(x[1])].name)] + body))
+        return out
+    return explicit(h)
+
+
+def enum_cases(max_leaves=3, max_dups=1, max_copies=2, cap=None, rng=None):
+    """bounded-exhaustive cases: every tree shape, every single-family history, every spelling"""
+    out = []
+    for n in range(2, max_leaves + 1):
+        for shape in enum_shapes(n):
+            tree = shape_tree(shape)
+            byp = tree.by_path()
+            for root in [x for x in tree.nodes() if x.kids]:
+                for sym in enum_histories(root, max_dups=max_dups, max_copies=max_copies):
+                    ids = Ids()
+                    genes = []
+                    h = relabel_history(sym, ids, genes)
+                    for k, it in enumerate(enum_spellings(h, byp)):
+                        it = ('og', 'e%d' % k, None, it[3])
+                        species = {}
+                        for g, p in genes:
+                            species.setdefault(byp[tuple(p)].name, []).append({'id': g})
+                        sp = [(nm, gs) for nm, gs in species.items()]
+                        stats = {'leaves': n, 'families': 1, 'genes': len(genes), 'dups': count_dups(h), 'exhaustive': 1}
+                        out.append(Case(tree, sp, [it], use_internal=True, histories=[('e%d' % k, h)], tag='exhaustive',
+                                        stats=stats))
+    if cap is not None and len(out) > cap and rng is not None:
+        out = rng.sample(out, cap)
+    return out
